@@ -178,6 +178,7 @@ func (c *Conn) Close() error {
 	if c.session != nil {
 		c.session.Logout()
 		c.session = nil
+		verifEventAsync(c, "cb.Logout", "close")
 	}
 
 	return c.conn.Close()
@@ -236,6 +237,7 @@ func (c *Conn) handleGreet(enhanced bool, arg string) {
 		c.reset()
 	} else {
 		sess, err := c.server.Backend.NewSession(c)
+		verifEvent(c, "cb.NewSession", err)
 		if err != nil {
 			c.helo = ""
 			c.writeError(451, EnhancedCode{4, 0, 0}, err)
@@ -828,6 +830,7 @@ func (c *Conn) handleAuth(arg string) {
 		c.writeResponse(334, NoEnhancedCode, encoded)
 
 		encoded, err = c.readLine()
+		verifEvent(c, "authline", encoded, err)
 		if err != nil {
 			return // TODO: error handling
 		}
@@ -901,6 +904,7 @@ func (c *Conn) handleStartTLS() {
 	if session := c.Session(); session != nil {
 		session.Logout()
 		c.setSession(nil)
+		verifEvent(c, "cb.Logout", "starttls")
 	}
 	c.helo = ""
 	c.didAuth = false
@@ -1006,6 +1010,7 @@ func (c *Conn) handleBdat(arg string) {
 				}
 			}()
 
+			verifGate(c, "bdat-deliver-start")
 			var err error
 			if !c.server.LMTP {
 				err = c.Session().Data(r)
@@ -1234,6 +1239,7 @@ func (c *Conn) greet() {
 }
 
 func (c *Conn) writeResponse(code int, enhCode EnhancedCode, text ...string) {
+	verifEvent(c, "reply", code, enhCode, len(text))
 	// TODO: error handling
 	if c.server.WriteTimeout != 0 {
 		c.conn.SetWriteDeadline(time.Now().Add(c.server.WriteTimeout))
@@ -1297,6 +1303,7 @@ func (c *Conn) reset() {
 
 	if c.session != nil {
 		c.session.Reset()
+		verifEventAsync(c, "cb.Reset")
 	}
 
 	c.fromReceived = false
